@@ -64,6 +64,78 @@ def rand_constraints(rng, desc):
     return cons
 
 
+def two_switch(rng, quad):
+    """degree-preserving change of the interaction SET: replace two disjoint interactions a-b, c-d by
+    a-c, b-d (or a-d, b-c) when those are absent; every variable keeps its degree, the number of
+    interactions stays the same. Returns (new quad, indices of the two new interactions) or None."""
+    key = lambda u, v: frozenset((str(u), str(v)))
+    have = {key(t[0], t[1]) for t in quad}
+    cands = []
+    for i in range(len(quad)):
+        for j in range(i + 1, len(quad)):
+            a, b = quad[i][0], quad[i][1]
+            c, d = quad[j][0], quad[j][1]
+            if len({str(a), str(b), str(c), str(d)}) < 4:
+                continue
+            for (p, q), (r, t) in (((a, c), (b, d)), ((a, d), (b, c))):
+                if key(p, q) not in have and key(r, t) not in have:
+                    cands.append((i, j, (p, q), (r, t)))
+    if not cands:
+        return None
+    i, j, e1, e2 = rng.choice(cands)
+    new = [list(t) for t in quad]
+    new[i] = [e1[0], e1[1], quad[i][2]]
+    new[j] = [e2[0], e2[1], quad[j][2]]
+    return new, (i, j)
+
+
+def rand_switch_desc(rng):
+    """a model with at least two disjoint interactions between non-REAL variables"""
+    n = rng.randint(4, 6)
+    labels = gen.rand_labels(rng, n)
+    single = rng.choice(['BINARY', 'SPIN', None])
+    vars_ = [[enc_label(l), single or rng.choice(['BINARY', 'SPIN', 'INTEGER'])] for l in labels]
+    lin = [[v[0], str(q4(rng) if rng.random() > 0.2 else Fraction(0))] for v in vars_]
+    order = list(range(n))
+    rng.shuffle(order)
+    pairs = [(order[2 * k], order[2 * k + 1]) for k in range(n // 2)]       # a (near) perfect matching
+    extra = [(i, j) for i in range(n) for j in range(i + 1, n) if (i, j) not in pairs and (j, i) not in pairs
+             and rng.random() < 0.15]
+    zero_side = rng.random() < 0.25
+    quad = []
+    for i, j in pairs + extra:
+        b = Fraction(0) if (zero_side or rng.random() < 0.15) else q4(rng)
+        quad.append([vars_[i][0], vars_[j][0], str(b)])
+    return {"vars": vars_, "lin": lin, "quad": quad, "off": str(q4(rng) if rng.random() < 0.5 else Fraction(0))}
+
+
+def switched(rng, spec):
+    """copy of `spec` whose interaction set differs while labels, vartypes, linear biases, offset, the
+    number of interactions and every variable's degree are the same; the moved interactions (or all
+    of them) often carry an explicit zero bias"""
+    s = copy.deepcopy(spec)
+    targets = [s["desc"]] + [c["lhs"] for c in s.get("cons", [])]
+    rng.shuffle(targets)
+    done = False
+    for d in targets:
+        for _ in range(rng.choice([1, 1, 2])):
+            r = two_switch(rng, d["quad"])
+            if r is None:
+                break
+            d["quad"], (i, j) = r
+            done = True
+            z = rng.random()
+            if z < 0.45:
+                d["quad"][i][2] = d["quad"][j][2] = "0"
+            elif z < 0.75:
+                for t in d["quad"]:
+                    t[2] = "0"
+        if done and rng.random() < 0.7:
+            break
+    s["mut"] = 'switch' if done else 'none'
+    return s
+
+
 def mutate(rng, spec):
     """one single-field change of a copy"""
     s = copy.deepcopy(spec)
@@ -72,7 +144,9 @@ def mutate(rng, spec):
     if d["vars"]:
         kinds += ['bias', 'label', 'vartype', 'addzero', 'dropvar', 'permute']
     if d["quad"]:
-        kinds += ['qbias', 'dropq']
+        kinds += ['qbias', 'dropq', 'zeroq']
+    if len(d["quad"]) >= 2:
+        kinds += ['switch']
     if s["form"] == 'cqm':
         kinds += ['extra_unused_var'] if False else []
         if s["cons"]:
@@ -124,6 +198,14 @@ def mutate(rng, spec):
             s["mut"] = 'none'
     elif k == 'dropq':
         d["quad"].remove(rng.choice(d["quad"]))
+    elif k == 'zeroq':
+        # same interaction set, explicit zero biases
+        if all(F(t[2]) == 0 for t in d["quad"]):
+            s["mut"] = 'none'
+        for t in d["quad"]:
+            t[2] = "0"
+    elif k == 'switch':
+        return switched(rng, spec)
     elif k == 'dropvar':
         v = rng.choice(d["vars"])[0]
         d["vars"] = [w for w in d["vars"] if str(w[0]) != str(v)]
@@ -183,6 +265,23 @@ def gen_spec(rng, desc=None):
 
 
 def gen_case(rng, tier):
+    if rng.random() < 0.14:
+        # same labels / vartypes / linear part / shape / degrees, different interaction sets
+        a = gen_spec(rng, rand_switch_desc(rng))
+        if a["form"] == 'cqm':
+            for c in a["cons"]:
+                if rng.random() < 0.6:
+                    c["lhs"]["quad"] = copy.deepcopy(a["desc"]["quad"])
+                    c["lhs"]["vars"] = copy.deepcopy(a["desc"]["vars"])
+                    c["lhs"]["lin"] = [[v[0], str(q4(rng))] for v in a["desc"]["vars"]]
+        b = switched(rng, a)
+        if b["form"] != 'cqm':
+            b["form"] = rng.choice([f for f in forms_for(b["desc"]) if f != 'cqm'])
+            if b["form"] == 'bqmview':
+                b["view_of"] = rng.choice(['same', 'same', 'other'])
+        if rng.random() < 0.5:
+            a, b = b, a
+        return {"a": a, "b": b}
     a = gen_spec(rng)
     r = rng.random()
     if r < 0.22:      # the same content in another representation
